@@ -351,11 +351,27 @@ func sleepingUnderTest(stacks string) bool {
 		if !strings.HasPrefix(g, "[sleep]") {
 			continue
 		}
+		// the sleep must have been issued by the monitor (a zz_verif frame) on a goroutine of the code under test
+		// (a frame in one of its own source files): a time.Sleep of the code under test itself - an unbounded
+		// back-off, say - is exactly what "parked" is meant to catch
+		byMonitor, underTest := false, false
 		for _, l := range strings.Split(g, "\n") {
 			l = strings.TrimSpace(l)
-			if strings.Contains(l, ".go:") && strings.Contains(l, "/sx/") && !strings.Contains(l, "zz_verif") && !strings.Contains(l, "/vlab/") {
-				return true
+			if strings.HasPrefix(l, "created by") {
+				break
 			}
+			if !strings.Contains(l, ".go:") {
+				continue
+			}
+			switch {
+			case strings.Contains(l, "zz_verif"):
+				byMonitor = true
+			case strings.Contains(l, "/sx/") && !strings.Contains(l, "/vlab/"):
+				underTest = true
+			}
+		}
+		if byMonitor && underTest {
+			return true
 		}
 	}
 	return false
